@@ -115,7 +115,18 @@ def streamLine (rp : Repairs) (fe : RErr) (sc : Script) : String :=
   let (lt, ls, _) := specTrace decSonicIn true term data.length maxCalls data
   let (et, es, _) := specTrace decJson false term data.length maxCalls data
   let why := diagnose term mt ms st ss last
-  s!"model={valsStr (mt.map (·.1))}|{stopStr ms}\tfixed={valsStr (ft.map (·.1))}|{stopStr fs}\tspec={valsStr (st.map (·.1))}|{stopStr ss}\tspec2={valsStr (lt.map (·.1))}|{stopStr ls}\tspecstd={valsStr (et.map (·.1))}|{stopStr es}\twhy={why}"
+  -- the same run with ONE of the switched-on repairs switched off, where that changes the answer:
+  -- a tree that lost a repair answers like this, which pins the loss to the repair (and its theorem)
+  let show_ := fun (t : List (Bytes × Nat) × Stop) => s!"{valsStr (t.1.map (·.1))}|{stopStr t.2}"
+  let without : List (Char × Repairs) :=
+    [('a', { rp with closer := false }), ('b', { rp with trunc := false }), ('c', { rp with split := false }),
+     ('d', { rp with inval := false }), ('e', { rp with pos := false }), ('f', { rp with clamp := false })]
+  let lost := without.foldl (fun acc (p : Char × Repairs) =>
+    if p.2 == rp then acc
+    else
+      let r := traceRun (Patched.decode decSonicV p.2) data maxCalls init sc .eof
+      if show_ r == show_ (mt, ms) then acc else acc ++ s!"\tno_{p.1}={show_ r}") ""
+  s!"model={valsStr (mt.map (·.1))}|{stopStr ms}\tfixed={valsStr (ft.map (·.1))}|{stopStr fs}\tspec={valsStr (st.map (·.1))}|{stopStr ss}\tspec2={valsStr (lt.map (·.1))}|{stopStr ls}\tspecstd={valsStr (et.map (·.1))}|{stopStr es}\twhy={why}{lost}"
 
 /-! sink -/
 
